@@ -183,6 +183,12 @@ type Env struct {
 	Item   val.Item
 	Names  map[string]string
 	Values map[string]val.V
+	// MissingAsNull is a defect model, never the reference: a path that does not resolve on the
+	// right-hand side of SET evaluates to NULL instead of invalidating the update.
+	MissingAsNull bool
+	// LenientAdd is a defect model, never the reference: ADD stores any operand under a missing
+	// attribute and adds a scalar of the element type to a set.
+	LenientAdd bool
 }
 
 // resolution status
